@@ -211,6 +211,14 @@ class Rig(object):
         return project_db(path, include=self.app_tables)
 
 
+def _stage_of(e):
+    """A SimulationFailure is the code REJECTING the evolution; any other
+    exception while simulating / queueing / lowering means an accepted
+    evolution for which no SQL could be generated."""
+    from django_evolution.errors import SimulationFailure
+    return 'simulate' if isinstance(e, SimulationFailure) else 'generate'
+
+
 def run_individually(rig, muts, statements=None):
     """Reference pipeline: one AppMutator per mutation, executed in order.
     Returns dict(ok, step, error, sig)."""
@@ -226,7 +234,7 @@ def run_individually(rig, muts, statements=None):
             am.run_mutations([m])
             sql = am.to_sql()
         except Exception as e:
-            return {'ok': False, 'stage': 'simulate', 'step': i,
+            return {'ok': False, 'stage': _stage_of(e), 'step': i,
                     'error': '%s: %s' % (type(e).__name__, e), 'sig': sig}
         try:
             with record_statements() as log:
@@ -262,7 +270,7 @@ def run_batched(rig, muts, statements=None, capture_opt=None):
         am.run_mutations(list(muts))
         sql = am.to_sql()
     except Exception as e:
-        return {'ok': False, 'stage': 'simulate',
+        return {'ok': False, 'stage': _stage_of(e),
                 'error': '%s: %s' % (type(e).__name__, e), 'sig': sig,
                 'tb': traceback.format_exc(limit=6)}
     try:
